@@ -25,6 +25,7 @@ class State:
         self.old = None  # entry state (for old(...))
         self.ghost = {}
         self.trace = []  # decisions taken on this path (for reports)
+        self.narrowed = frozenset()  # names whose Optional value was narrowed to its payload on this path (`x is None` tests)
 
     def copy(self):
         s = State()
@@ -35,6 +36,7 @@ class State:
         s.old = self.old
         s.ghost = dict(self.ghost)
         s.trace = list(self.trace)
+        s.narrowed = self.narrowed
         return s
 
     def assume(self, f):
